@@ -189,6 +189,7 @@ if SMALL:
             f.harness = None
         else:
             f.tier = 'quick'
+            f.timeout = 900      # the small instance takes 3-4 minutes; the 90-minute limit in the spec is for the full-size one
 else:
     # closure at full physical size is a 10-40 minute SAT query whose run time varies a lot with unrelated changes of the unit text: it is
     # run for C01 in the thorough tier only; C08 / C11 / C12 (and C01's quick tier) use the small instance of the unit, same contract
